@@ -238,6 +238,41 @@ theorem readPathRaw_eq (rc : List Comp) (hr : ∀ c ∈ rc, Normal c) (items : L
   rw [foldl_step_of_normal _ _ hall]
   simp
 
+/-- The same for a root STRING in any absolute form (trailing slash, doubled slash, `.` / `..`
+    components): `ReadPath` cleans the root along with the rest, the result is the rendering of
+    `readPath` over the root's cleaned components. -/
+theorem readPathRaw_any_root (root t : Bytes) (hs : root = slash :: t) (items : List Bytes) (name : Bytes) :
+    readPathRaw root items name = renderAbs (readPath ((splitSlash root).foldl step []) items name) := by
+  have hsub := subPathStr_rep items [] [] (Or.inl ⟨rfl, rfl⟩)
+  have hnm : SubRep (joinStr [[slash], name]) (joinRooted [] name) := by
+    have := joinRootedStr_rep [] name [] (Or.inl ⟨rfl, rfl⟩)
+    have e : joinStr [[slash], name] = joinRootedStr [] name := by
+      simp [joinRootedStr, joinStr, intercalateSlash, cleanStr, splitSlash_slash, step_nil, splitSlash]
+    rw [e]; exact this
+  have hrn : ∀ c ∈ (splitSlash root).foldl step [], Normal c :=
+    foldl_step_normal _ _ (by simp) (splitSlash_no_slash root)
+  unfold readPathRaw subPathStr
+  have e : joinStr [root, items.foldl joinRootedStr [], joinStr [[slash], name]] =
+      cleanStr (root ++ slash :: (items.foldl joinRootedStr [] ++ slash :: joinStr [[slash], name])) := by
+    simp [joinStr, intercalateSlash, hs]
+  rw [e]
+  have e2 : cleanStr (root ++ slash :: (items.foldl joinRootedStr [] ++ slash :: joinStr [[slash], name])) =
+      renderAbs ((splitSlash (root ++ slash :: (items.foldl joinRootedStr [] ++ slash :: joinStr [[slash], name]))).foldl step []) := by
+    rw [hs]; simp [cleanStr]
+  rw [e2, splitSlash_append, splitSlash_append]
+  simp only [List.foldl_append]
+  rw [hsub.fold, hnm.fold]
+  have hall : ∀ c ∈ items.foldl joinRooted [] ++ joinRooted [] name, Normal c := by
+    intro c hc
+    rcases List.mem_append.mp hc with h | h
+    · exact items_normal items [] (by simp) c h
+    · exact joinRooted_normal [] name (by simp) c h
+  simp only [readPath]
+  rw [foldl_step_of_normal _ _ hall]
+  simp
+
+example : readPathRaw [47, 70, 47, 46, 47, 47, 71, 47] [[46, 46]] [120] = [47, 70, 47, 71, 47, 120] := by decide
+
 -- ---------------------------------------------------------------- Mac-Roman (charmap.Macintosh)
 
 /-- Code points of the bytes 0x80..0xFF in `golang.org/x/text/encoding/charmap.Macintosh`
